@@ -132,6 +132,7 @@ def templates(tier="quick"):
         ninja_op(j=3, faults={"a": {"code": 1}}),
         ninja_op(j=3, faults={"build.ninja": {"code": 1}}),
         ninja_op(j=3, faults={"build.ninja": {"code": 7}}),
+        {"op": "rm", "path": "s", "label": "rm source s"},
     ]
     files = {"build.ninja.in": va.manifest(), "s": "s-v0\n"}
     T.append(scenario("manifest_regen/fresh", "template", [va, vb], files=files, ops=ops, init=[], depth=2,
@@ -287,5 +288,18 @@ def templates(tier="quick"):
     # to an output named like the part before the TAB
     v = Variant("v0", [Stmt("a\tb", ex=["s"]), Stmt("a", ex=["t"]), Stmt("top", ex=["a\tb", "a"])])
     T += _mk("tab_in_output_name", [v], tags=["names"], depth=d, js=(1, 2), max_fault_stmts=1)
+
+    # T32 declared sources that are missing and have no rule: as explicit, implicit, order-only input and as a validation,
+    # of statements with and without work to do (C05: reported before any command runs)
+    v = Variant("v0", [Stmt("a", ex=["s"]), Stmt("b", ex=["a"], im=["isrc"]), Stmt("c", ex=["t"], oo=["osrc"]),
+                       Stmt("d", ex=["u"], val=["vsrc"]), Stmt("all", ex=["a", "b", "c", "d"], phony=True)], defaults=["all"])
+    mops = [{"op": "rm", "path": x, "label": "rm source " + x} for x in ("s", "isrc", "osrc", "vsrc")] + \
+           [{"op": "edit", "path": x, "label": "edit " + x} for x in ("t", "u")] + \
+           [{"op": "write", "path": x, "content": x + "-back\n", "label": "restore " + x} for x in ("osrc", "vsrc")] + \
+           [{"op": "rm", "path": "c", "label": "rm c"}]
+    mb = len(mops)
+    mops += [ninja_op(j=1), ninja_op(j=2), ninja_op(j=2, k=0), ninja_op(targets=["c"], j=1), ninja_op(targets=["d"], j=1)]
+    T.append(scenario("missing_source/fresh", "template", [v], ops=mops, init=[], depth=2, tags=["missing-source", "fresh"]))
+    T.append(scenario("missing_source/built", "template", [v], ops=mops, init=[mb], depth=d, tags=["missing-source", "built"]))
 
     return T
